@@ -70,7 +70,7 @@ TRIAGE_RULES = [
     ("rustemo::glr::parser::GlrParser::shifter/unwrap/*", INV, "pending shifts hold frontier heads: token_ahead is set"),
     ("rustemo::glr::parser::GlrParser::reducer/index/*", INV, "parents[0] / parents[len-1] on the !parents.is_empty() branch; possibilities[0]: every stored Parent has >= 1 possibility"),
     ("rustemo::glr::parser::GlrParser::reducer/overflow-sub/*", INV, "parents.len() - 1 on the non-empty branch"),
-    ("rustemo::glr::parser::GlrParser::reducer/refcell/*", INV, "borrows of possibilities/children are statement-local; no overlapping borrow_mut of the same cell"),
+    ("rustemo::glr::parser::GlrParser::reducer/refcell/*", INV, "borrows of possibilities/children are statement-local; no overlapping borrow_mut of the same cell (9th site, with the D27 repair: `children.borrow()` in the condition of the replacement, its guard is dropped before the block takes borrow_mut)"),
     ("rustemo::glr::parser::GlrParser::reducer/panic/*", INV, "Action::Error arm: both table layouts strip Error from action lists (C08-R1)"),
     ("rustemo::glr::parser::GlrParser::find_reduction_paths/debug_assert/*", INV, "ReductionStart::Node is built iff length == 0 at all construction sites (C03-R3)"),
     ("rustemo::glr::parser::GlrParser::find_reduction_paths/overflow-sub/*", INV, "Edge-based reductions have length >= 1 (C03-R3)"),
@@ -500,6 +500,164 @@ def r5_no_forest_traversal(F, res):
             len(recursive), ncalls))
 
 
+_TY_TOK = re.compile(r"&(?:'\w+\s+)?(?:mut\s+)?|\*(?:const|mut)\s+|[A-Za-z_][A-Za-z0-9_]*(?:::[A-Za-z_][A-Za-z0-9_]*)*|[<>(),\[\];]")
+
+
+# generic wrappers whose drop does not drop their argument: markers, weak handles, RefCell guards, borrowing iterators
+NOT_OWNING = ("PhantomData", "Weak", "Ref", "RefMut", "Iter", "IterMut", "Edges", "EdgeReference", "Neighbors")
+
+
+def owned_adts(ty, adts):
+    """ADT paths mentioned in the type string `ty` and owned by a value of that type: mentions behind `&`/raw pointers and
+    inside PhantomData<..> do not count (the drop glue does not go there)."""
+    out = set()
+    toks = _TY_TOK.findall(ty)
+    i, depth = 0, 0
+    skip_until = None       # nesting depth at which a skipped generic argument list ends
+    borrowed_at = None      # `&` seen: the next type expression is not owned
+    while i < len(toks):
+        t = toks[i]
+        if t in ("<", "(", "["):
+            depth += 1
+        elif t in (">", ")", "]"):
+            depth -= 1
+            if skip_until is not None and depth < skip_until:
+                skip_until = None
+            if borrowed_at is not None and depth < borrowed_at:
+                borrowed_at = None
+        elif t == "," and borrowed_at is not None and depth <= borrowed_at:
+            borrowed_at = None
+        elif t.startswith("&") or t.startswith("*"):
+            if borrowed_at is None:
+                borrowed_at = depth
+        elif skip_until is None and t[0].isalpha() or t[0] == "_":
+            if t.rsplit("::", 1)[-1] in NOT_OWNING:
+                skip_until = depth + 1
+            elif borrowed_at is None:
+                if t in adts:
+                    out.add(t)
+            elif depth == borrowed_at and not (i + 1 < len(toks) and toks[i + 1] == "<"):
+                borrowed_at = None          # `&T` without generics ends here
+            # `&T<..>`: stays borrowed until the matching `>` brings the depth back
+        i += 1
+    return out
+
+
+def recursive_types(F, crate):
+    """(recursive, owners): ADTs of `crate` on a cycle of the owns-relation (each such cycle runs through Box/Rc/Vec/..: the
+    compiler's drop glue for it is a recursion as deep as the value), and the ADTs that own one of them transitively."""
+    adts = {p: a for c in F.crates if c.name == crate and not c.test for p, a in c.adts.items() if p.startswith(crate + "::")}
+    E = {}
+    for p, a in adts.items():
+        E[p] = set()
+        for v in a["variants"]:
+            for f in v["fields"]:
+                E[p] |= owned_adts(f["ty"], adts)
+    def reach(a):
+        seen, st = set(), list(E.get(a, ()))
+        while st:
+            x = st.pop()
+            if x not in seen:
+                seen.add(x)
+                st.extend(E.get(x, ()))
+        return seen
+    R = {p: reach(p) for p in adts}
+    rec = {p for p in adts if p in R[p]}
+    owners = {p for p in adts if R[p] & rec}
+    return adts, rec, owners, R
+
+
+PARSE_ENTRIES = ("parse", "parse_with_context", "parse_file")
+
+
+def parse_reach(F):
+    """functions reachable from the parse entry points of the runtime (Parser impls of LRParser and GlrParser)"""
+    entries = [p for p, f in F.fns.items() if f.crate == "rustemo" and f.d.get("implements")
+               and mir.strip_generics(f.d["implements"]).rsplit("::", 1)[-1] in PARSE_ENTRIES
+               and "Parser" in f.d["implements"]]
+    return entries, mir.CallGraph(F).reach(entries)
+
+
+def r7_recursive_drop(F, res):
+    """Values whose drop glue is a recursion over an input-sized structure must not be dropped on the way out of parse():
+    a long input (left-recursive list, 100 000 elements) overflows the stack there - an abort, not an Err."""
+    rid = res.rule("C15-R7", "no function reachable from parse() drops a value that owns a recursive runtime type with compiler-"
+                   "generated drop glue (SPPF nodes, tree nodes): the glue recurses as deep as the tree, and the depth is the "
+                   "input's to choose", floor=2)
+    adts, rec, owners, R = recursive_types(F, "rustemo")
+    if not rec:
+        res.anchor_lost(rid, "no recursive type found in the runtime crate (SPPFTree/Parent, TreeNode were)")
+        return
+    manual = set()
+    for c in F.crates:
+        if c.name != "rustemo" or c.test:
+            continue
+        for im in c.impls:
+            if im.get("trait") in ("core::ops::Drop", "std::ops::Drop", "core::ops::drop::Drop"):
+                manual |= owned_adts(im["self_ty"], adts) | {a for a in adts if im["self_ty"].startswith(a)}
+    entries, reachable = parse_reach(F)
+    if len(entries) < 4:
+        res.anchor_lost(rid, "parse entry points of LRParser/GlrParser not found (%d)" % len(entries))
+        return
+    sites, handles = {}, {}
+    for p in sorted(reachable):
+        f = F.fns.get(p)
+        if f is None or f.crate != "rustemo" or not f.has_body():
+            continue
+        for bi, b in enumerate(f.blocks):
+            tm = b["term"]
+            if tm["k"] != "drop" or b.get("cleanup"):
+                continue
+            pl = tm["p"]
+            ty = None
+            for pr in pl.get("proj", []):
+                if pr.get("k") == "field" and pr.get("ty"):
+                    ty = pr["ty"]
+                elif pr.get("k") in ("deref", "index", "cindex"):
+                    ty = None if ty is None else ty
+            if ty is None:
+                ty = f.d["locals"][pl["l"]]["ty"] if "locals" in f.d and pl.get("l") is not None else ""
+            shared = ty.startswith("alloc::rc::Rc<") or ty.startswith("alloc::sync::Arc<")
+            for a in owned_adts(ty, adts):
+                for r in ({a} | R[a]) & rec:
+                    (handles if shared else sites).setdefault(r, []).append((
+                        mir.strip_generics(F.owner_root(p)), ty,
+                        "%s: %s (%s)" % (f.file, mir.short(mir.strip_generics(F.owner_root(p))), f.var_name(pl.get("l")) or "temporary")))
+            # the same through a call that empties a collection in place
+        for bi, tm in f.calls():
+            nm = mir.strip_generics(callee(tm) or "")
+            if nm.rsplit("::", 1)[-1] not in ("clear", "truncate") or not tm.get("args"):
+                continue
+            a0 = tm["args"][0]
+            pl = a0.get("p") if isinstance(a0, dict) else None
+            if not pl or pl.get("l") is None or "locals" not in f.d:
+                continue
+            ty = re.sub(r"^&(?:'\w+\s+)?mut\s+", "", f.d["locals"][pl["l"]]["ty"]) if not pl.get("proj") else ""
+            for a in owned_adts(ty, adts):
+                for r in ({a} | R[a]) & rec:
+                    sites.setdefault(r, []).append((
+                        mir.strip_generics(F.owner_root(p)), ty,
+                        "%s: %s (%s)" % (f.file, mir.short(mir.strip_generics(F.owner_root(p))), nm.rsplit("::", 1)[-1] + "()")))
+    for r in sorted(rec):
+        cyc = sorted(x for x in R[r] & rec if r in R[x])
+        have_drop = [x for x in cyc if x in manual]
+        ss = sorted(sites.get(r, []), key=lambda x: (not x[1].startswith("rustemo::"), x[2]))
+        inst = "recursive-drop/" + r
+        if have_drop:
+            res.ok(rid, inst, None, "cycle %s has a manual Drop on %s (its iterativeness is not decided here)" % (cyc, have_drop))
+        elif not ss:
+            res.ok(rid, inst, None, "recursive (cycle %s), compiler drop glue, but no value owning it is dropped in a function "
+                   "reachable from parse() (%d drop(s) of shared Rc handles not counted): it leaves with the result or stays in "
+                   "the parser object" % (cyc, len(handles.get(r, []))))
+        else:
+            fns = sorted({x[0] for x in ss})
+            res.violation(rid, inst, "%s is recursive through %s and has compiler-generated drop glue; values owning it are dropped "
+                          "in %d place(s) reachable from parse() (%s; not counting %d drop(s) of shared Rc handles): the drop "
+                          "recurses as deep as the tree, a long input overflows the stack" % (
+                              mir.short(r), [mir.short(x) for x in cyc], len(ss), ", ".join(mir.short(x) for x in fns[:4]),
+                              len(handles.get(r, []))), ss[0][2])
+
+
 def r6_generated_recognizers(ctx, res):
     """The generated recogniser runs on every token attempt with text the user controls: it answers Some/None and never
     unwraps what the regex engine returns (fancy-regex answers Err on its backtrack limit)."""
@@ -530,6 +688,7 @@ def run(ctx, res):
                    "API is class-discharged, mechanically discharged by a dominating guard, or a triaged invariant", floor=60)
     triage = census.load_triage("panic_runtime.json")
     stats, stale, fns = census.run_census(F, res, rid, CRATES, roots(F), triage, CLASS_RULES, "C15")
+    r7_recursive_drop(F, res)
     for k in stale:
         res.notes.append("triage row no longer matches any site: " + k)
     r2_guards(F, res)
@@ -551,8 +710,9 @@ def run(ctx, res):
         "by a dominating guard on the same terms (Q1 is_some/match arm, Q2 index < len, Q4 l >= r, Q7 fresh Some, Q8 "
         "contains_key), or by an exact row of the hand-audited triage table (rules/tables/panic_runtime.json) with its "
         "reason; anything else is a violation. Plus the progress guards of the two retry loops, the layout-parser "
-        "constants, no removal from the GSS graph, the SPPFTree-as-Context restriction, and the unvalidated-regex "
-        "finding. Not decided: termination of the LR/GLR main loops in general (cyclic grammars, unbounded ambiguity), "
+        "constants, no removal from the GSS graph, the SPPFTree-as-Context restriction, the unvalidated-regex "
+        "finding, and the recursive-drop rule (type graph of the runtime ADTs; Drop terminators and clear()/truncate() "
+        "calls in functions reachable from the parse entry points). Not decided: termination of the LR/GLR main loops in general (cyclic grammars, unbounded ambiguity), "
         "stack depth of recursive forest traversals, panics inside user actions or third-party crates.")
     res.assumptions = ["invariant rows of the triage table are human judgements (listed in evidence with reasons)",
                        "generic runtime code is analysed pre-monomorphisation"]
